@@ -2,7 +2,7 @@
 It exists because TLC's integers are 32-bit: expected values for operands beyond that come from here.  The check
 binds it to the specification: every (program, expected value) pair that TLC prints from LpcSem is also evaluated
 here and must agree (checks/c03.py), so this file can only be wrong where the specification is silent.
-Values: ("i", n) | ("s", [codes]) | ("a", [values]) | ("e", kind) | ("f", float)"""
+Values: ("i", n) | ("s", [codes]) | ("a", [values]) | ("m", [(key, value)..]) | ("e", kind) | ("f", float)"""
 
 M64 = (1 << 64) - 1
 
@@ -38,9 +38,22 @@ def same(x, y):
     return x[0] == y[0] and x[0] in ("i", "s") and x[1] == y[1]
 
 
+def Mp(q): return ("m", [(k, v) for k, v in q])
+def map_has(q, k): return any(same(e[0], k) for e in q)
+def map_get(q, k):
+    for e in q:
+        if same(e[0], k): return e[1]
+    return I(0)
+def MapAdd(l, r): return Mp([e for e in l if not map_has(r, e[0])] + list(r))
+def MapDel(q, k): return Mp([e for e in q if not same(e[0], k)])
+def MapPut(q, k, x): return Mp([(e[0], x) if same(e[0], k) else e for e in q]) if map_has(q, k) else Mp(list(q) + [(k, x)])
+
+
 def Bin(op, x, y):
     if is_err(x): return x
     if is_err(y): return y
+    if x[0] == "m" and y[0] == "m":
+        return MapAdd(x[1], y[1]) if op == "add" else E("type")
     if x[0] == "i" and y[0] == "i":
         a, b = x[1], y[1]
         if op == "add": return I(a + b)
@@ -85,7 +98,7 @@ def Un(op, x):
     if op == "not": return Bool(not truthy(x))
     if op == "neg": return I(-x[1]) if x[0] == "i" else E("type")
     if op == "compl": return I(-x[1] - 1) if x[0] == "i" else E("type")
-    if op == "sizeof": return I(len(x[1])) if x[0] in ("a", "s") else I(0)
+    if op == "sizeof": return I(len(x[1])) if x[0] in ("a", "s", "m") else I(0)
     return E("type")
 
 
@@ -109,6 +122,7 @@ def Cond(c, x, y):
 def Index(x, i, from_end):
     if is_err(x): return x
     if is_err(i): return i
+    if x[0] == "m": return E("type") if from_end else map_get(x[1], i)
     if x[0] not in ("a", "s") or i[0] != "i": return E("type")
     n = len(x[1])
     p = n - i[1] if from_end else i[1]
@@ -139,6 +153,7 @@ def from_json(v):
     if t == "i": return I(v["v"])
     if t == "s": return S(v["v"])
     if t == "a": return A([from_json(e) for e in v["v"]])
+    if t == "m": return Mp([(from_json(e[0]), from_json(e[1])) for e in v["v"]])
     return E(v["v"])
 
 
@@ -171,6 +186,9 @@ def canon(x):
         return ["a", [canon(e) for e in x[1]]]
     if x[0] == "s":
         return ["s", list(x[1])]
+    if x[0] == "m":      # the order of entries means nothing
+        import json as _j
+        return ["m", sorted(([canon(k), canon(v)] for k, v in x[1]), key=lambda e: _j.dumps(e[0]))]
     if x[0] == "f":
         return ["f", repr(float(x[1]))]
     return [x[0], x[1]]
